@@ -46,7 +46,7 @@ class C17(object):
                  # target = concatenation of three bits
                  'cat3': ['0000', '0011', '0102', '0113', '1004', '1015', '1106', '1117']}
         for i in range(n_cases):
-            ns = rng.choice([2, 2, 3])
+            ns = rng.choice([2, 2, 3]) if i % 10 != 7 else 3
             style = rng.choice(['random', 'random', 'sparse', 'gate'])
             if i % 10 == 3:
                 style = 'gate'
@@ -85,6 +85,8 @@ class C17(object):
                 classes = ['PID_CT', 'PID_CT', 'PID_CT', 'PID_WB', 'PID_MMI', 'PID_RR', 'PID_IG', 'PID_MES']
             if style == 'gate' and name == 'cat3':
                 classes = ['PID_CT', 'PID_CT', 'PID_Proj', 'PID_WB']
+            if i % 10 == 7 and ns == 3 and style != 'gate':
+                classes = [['PID_MMI', 'PID_WB', 'PID_GK', 'PID_PM'][(i // 10) % 4]]     # closed forms on three sources, every run
             c = {'outs': outs, 'pmf': [str(p) for p in pmf], 'ns': ns, 'cls': rng.choice(classes),
                  'addr': rng.choice(['default', 'explicit', 'names', 'names-default']),
                  'dense': rng.random() < 0.3, 'style': style, 'tw': 1, 'pre': None}
@@ -273,7 +275,7 @@ class C17(object):
             for x, v in zip(mnodes, mo):
                 if abs(v - reds[x]) > 1e-9:
                     r.mismatch = '%s%s: impl %r model %r' % (name, x, reds[x], v)
-                    return
+                    break
             ref = self.ref_red(name, rows, ns)
             for x in mnodes:
                 if abs(ref[x] - reds[x]) > 1e-9:
